@@ -1,4 +1,7 @@
 import CookModel.Analysis.Collector
+import CookModel.Lemmas.ExtLawsStep
+import CookModel.Lemmas.ExtLawsAnalysis
+import CookModel.Lemmas.LexLaws
 /-
   C02  Core-syntax recipes parse identically under every extension subset.
 
@@ -9,6 +12,7 @@ import CookModel.Analysis.Collector
   for recipes that avoid the reinterpreted constructs) and the per-flag readings are decided per
   run on the implementation (oracle) and compared with the model under every pattern.
 -/
+set_option linter.unusedSectionVars false
 namespace Cook
 variable {α : Type} [Arith α]
 
@@ -30,5 +34,234 @@ theorem C02_alias_off (container : String) (tokens : List Tok) (off : Nat) (s : 
     Bool.false_eq_true, if_false]
   cases bpText (α := α) off tokens s
   rfl
+
+/-! ### The main clause, parser part: the gates do not matter on core syntax
+
+  `s.withExt e` is the parser state `s` under the extension set `e`; each statement says that the
+  result, the events, the cursor and the panic flag of the parser are the same for every `e`
+  (all raw bit patterns), given a premise on the tokens only. -/
+
+/-- MODIFIERS / INTERMEDIATE_PREPARATIONS: when the token after the marker is none of `@ ? + - &`,
+    `modifiers()` consumes nothing whatever the extension bits are (so `parse_modifiers` gets no
+    tokens and does not reach its gate either) -/
+theorem C02_modifiers_irrelevant (s : BP α)
+    (h : ∀ t, s.toks[s.cur]? = some t → isModStart t.kind = false) (e : Ext) :
+    modifiersP (s.withExt e) = (([] : List Tok), s.withExt e) :=
+  modifiersP_noop_ext s h e
+
+/-- COMPONENT_ALIAS: without a `|` among the name tokens `parse_alias` reads the name alike under
+    every extension set -/
+theorem C02_alias_irrelevant (container : String) (tokens : List Tok) (off : Nat)
+    (h : tokens.any (fun t => t.kind == .or) = false) (s : BP α) (e : Ext) :
+    parseAlias container tokens off (s.withExt e) =
+      ((parseAlias container tokens off s).1, (parseAlias container tokens off s).2.withExt e) :=
+  ((parseAlias_indA container tokens off h).all s).ext e
+
+/-- RANGE_VALUES: without a `-` among the value tokens the extension makes no difference -/
+theorem C02_range_irrelevant (tokens : List Tok) (h : tokens.any (fun t => t.kind == .minus) = false) :
+    numOrRange (α := α) true tokens = numOrRange false tokens :=
+  numOrRange_noMinus tokens h true
+
+/-- ADVANCED_UNITS (and RANGE_VALUES) in `parse_quantity`: when the tokens between the braces
+    contain no `-` and either contain a `%` or the tokens before the first word do not end in
+    whitespace (`quantCore`), the advanced parser declines and the quantity is read alike under
+    every extension set -/
+theorem C02_advanced_irrelevant (q : List Tok) (h : quantCore q = true) (s : BP α) (e : Ext) :
+    parseQuantity q (s.withExt e) = ((parseQuantity q s).1, (parseQuantity q s).2.withExt e) :=
+  (parseQuantity_ind q h s).ext e
+
+/-- the syntactic reason alone: with `advNone` the advanced parser returns `None` and leaves no
+    trace (no event, no panic; the cursor is restored) -/
+theorem C02_advanced_declines (s : BP α) (hc : s.cur = 0) (h : advNone s.toks = true) :
+    withRecover parseAdvancedQuantity s = (none, s) :=
+  withRecover_none (parseAdvancedQuantity_declines s hc h)
+
+/-- TIMER_REQUIRES_TIME (and the alias gate of timers): on a block whose components are core
+    (`stepCore`: in particular every timer has a quantity) the timer parser does not depend on the
+    extension set -/
+theorem C02_timer_time_irrelevant (s : BP α) (hs : stepCore s.toks = true) (e : Ext) :
+    timerP (s.withExt e) = ((timerP s).1, (timerP s).2.withExt e) :=
+  (timerP_ind s hs).ext e
+
+/-- the same for ingredients and cookware -/
+theorem C02_ingredient_irrelevant (s : BP α) (hs : stepCore s.toks = true) (e : Ext) :
+    ingredientP (s.withExt e) = ((ingredientP s).1, (ingredientP s).2.withExt e) :=
+  (ingredientP_ind s hs).ext e
+
+theorem C02_cookware_irrelevant (s : BP α) (hs : stepCore s.toks = true) (e : Ext) :
+    cookwareP (s.withExt e) = ((cookwareP s).1, (cookwareP s).2.withExt e) :=
+  (cookwareP_ind s hs).ext e
+
+/-- MODES in `parse_block`: when the block is not a `>>` line whose key is `[…]`, and its
+    components are core, `parse_block` does not depend on the extension set -/
+theorem C02_modes_irrelevant (oldStyle : Bool) (s : BP α) (hc : s.cur = 0)
+    (hm : metaKeyCore s.cs s.toks = true) (hs : stepCore s.toks = true) (e : Ext) :
+    parseBlock oldStyle (s.withExt e) = ((parseBlock oldStyle s).1, (parseBlock oldStyle s).2.withExt e) :=
+  (parseBlock_ind oldStyle s hc hm hs).ext e
+
+/-- C02, parser part: a block that satisfies the decidable token predicate `UsesNone` (no `>> [key]`
+    line; after every marker `@ # ~`: no modifier character, no `|` in the name, a quantity without
+    `-` that the advanced-units parser declines, a quantity on every timer) yields the same events
+    and the same panic flag under ANY two extension sets (all raw bit patterns), whatever events
+    came before.
+    Not covered here (hence the analysis theorem below): the gates of the analysis pass. -/
+theorem C02_parser_ext_irrelevant (cs : CharSpec) (e₁ e₂ : Ext) (oldStyle : Bool) (block : List Tok)
+    (evs : Array (Ev α)) (p : Option String) (h : UsesNone cs block = true) :
+    runBlock cs e₁ oldStyle block evs p = runBlock cs e₂ oldStyle block evs p :=
+  runBlock_ext_irrelevant cs e₁ e₂ oldStyle block evs p h
+
+/-- … and so does a whole input all of whose blocks satisfy `UsesNone`: the event stream of the
+    pull parser is the same under any two extension sets -/
+theorem C02_pullEvents_ext_irrelevant (cs : CharSpec) (e₁ e₂ : Ext) (input : List Char)
+    (h : UsesNoneInput cs input = true) :
+    pullEvents (α := α) cs e₁ input = pullEvents cs e₂ input :=
+  pullEvents_ext_irrelevant cs e₁ e₂ input h
+
+/-! #### Examples -/
+
+/-- tokens with their offsets, from kinds and texts -/
+def C02.toks (l : List (TK × List Char)) : List Tok :=
+  (l.foldl (fun (acc : List Tok × Nat) p => (acc.1 ++ [⟨p.1, p.2, acc.2⟩], acc.2 + utf8Len p.2)) ([], 0)).1
+
+/-- `Mix @flour{200%g}, @eggs{3} and @sea salt{} in a #bowl for ~{5%minutes}.` -/
+def C02.coreBlock : List Tok := C02.toks [
+  (.word, ['M','i','x']), (.ws, [' ']), (.at, ['@']), (.word, ['f','l','o','u','r']), (.openBrace, ['{']),
+  (.int, ['2','0','0']), (.percent, ['%']), (.word, ['g']), (.closeBrace, ['}']), (.punct, [',']), (.ws, [' ']),
+  (.at, ['@']), (.word, ['e','g','g','s']), (.openBrace, ['{']), (.int, ['3']), (.closeBrace, ['}']), (.ws, [' ']),
+  (.word, ['a','n','d']), (.ws, [' ']), (.at, ['@']), (.word, ['s','e','a']), (.ws, [' ']),
+  (.word, ['s','a','l','t']), (.openBrace, ['{']), (.closeBrace, ['}']), (.ws, [' ']), (.word, ['i','n']),
+  (.ws, [' ']), (.word, ['a']), (.ws, [' ']), (.hash, ['#']), (.word, ['b','o','w','l']), (.ws, [' ']),
+  (.word, ['f','o','r']), (.ws, [' ']), (.tilde, ['~']), (.openBrace, ['{']), (.int, ['5']), (.percent, ['%']),
+  (.word, ['m','i','n','u','t','e','s']), (.closeBrace, ['}']), (.dot, ['.'])]
+
+/-- a realistic core step satisfies the premise (for every character table) -/
+example (cs : CharSpec) : UsesNone cs C02.coreBlock = true := by
+  have h1 : metaKeyOf C02.coreBlock = none := rfl
+  have h2 : stepCore C02.coreBlock = true := by decide
+  simp [UsesNone, metaKeyCore, h1, h2]
+
+/-! ### The main clause, analysis part -/
+
+/-- C02, analysis part (partial): on an event list without bracketed `>>` keys whose texts are not
+    empty and contain no ASCII digit (so that the inline-quantity finder finds nothing:
+    `findInlineQuantity_no_digit`), the analysis pass gives the same result under two extension sets
+    that agree on the ADVANCED_UNITS bit; MODES and INLINE_QUANTITIES (and all bits the analysis never
+    reads) are arbitrary.
+    Missing for the full clause: a syntactic premise on units/timers (timer values numeric, timer
+    units known time units, no reference with a unit incompatible with its definition) in place
+    of the equal ADVANCED_UNITS bit. -/
+theorem C02_analysis_ext_irrelevant_partial (env : Env) (e : Ext) (input : Str) (evs : List (Ev α))
+    (hadv : e.has Gen.EXT_ADVANCED_UNITS = env.ext.has Gen.EXT_ADVANCED_UNITS)
+    (h : evs.all (evCoreA env.cs) = true) :
+    parseEvents (env.withExt e) input evs = parseEvents env input evs :=
+  parseEventsLoop_ext env e hadv input evs h {}
+
+/-- a step text without an ASCII digit contains no inline quantity, whatever the converter knows -/
+theorem C02_no_digit_no_inline_quantity (env : Env) (fuel : Nat) (pre rest : Str)
+    (h : rest.any isAsciiDigitC = false) : findInlineQuantity (α := α) env fuel pre rest = none :=
+  findInlineQuantity_no_digit env fuel pre rest h
+
+/-- the hypothesis on events is satisfiable: a `>> servings: two` entry and the text `Mix well.` -/
+example : ([.metadata (Text.fromStr ['s','e','r','v','i','n','g','s'] 3) (Text.fromStr ['t','w','o'] 13),
+    .text (Text.fromStr ['M','i','x',' ','w','e','l','l','.'] 17)] : List (Ev Rat)).all (evCoreA toyCharSpec) = true := by
+  decide
+
+/-! ### The converse clause, remaining gates: a disabled extension's syntax is core text -/
+
+/-- with ADVANCED_UNITS off `parse_quantity` is exactly the regular quantity parser (value up to
+    `%`, unit after it) run on the tokens between the braces: `{1 kg}` is the text value `1 kg` -/
+theorem C02_advanced_off (q : List Tok) (s : BP α) (h : s.ext.has Gen.EXT_ADVANCED_UNITS = false) :
+    parseQuantity q s =
+      (let s' := ((if q.isEmpty then panicWith "parse_quantity: empty tokens" else pure () : P α Unit) s).2
+       let r := parseRegularQuantity ({ s' with toks := q, cur := 0 } : BP α)
+       (r.1, { r.2 with toks := s'.toks, cur := s'.cur })) :=
+  parseQuantity_advanced_off q s h
+
+/-- with MODES off the analysis treats a `>>` entry with a bracketed key as a plain entry
+    (`metadataPlain`: recorded in the map, checked as a standard key) -/
+theorem C02_modes_off (env : Env) (key value : Text) (h : env.ext.has Gen.EXT_MODES = false) :
+    metadataA (α := α) env key value = metadataPlain env key value :=
+  metadataA_plain env key value (by rw [h, Bool.false_and])
+
+/-- … and `parse_block` keeps or drops a `>>` entry only according to `oldStyle` (no front matter),
+    bracketed key or not (`parseBlockNoModes` is `parse_block` without the MODES clause) -/
+theorem C02_modes_off_parser (oldStyle : Bool) (s : BP α) (h : s.ext.has Gen.EXT_MODES = false) :
+    parseBlock (α := α) oldStyle s = parseBlockNoModes oldStyle s :=
+  parseBlock_modes_off oldStyle s h
+
+/-- with INLINE_QUANTITIES off a text inside a step becomes exactly one text item (outside
+    components mode), digits and units included -/
+theorem C02_inline_off (env : Env) (t : Text) (items : List Item) (s : Col α)
+    (h : env.ext.has Gen.EXT_INLINE_QUANTITIES = false) (hd : s.defineMode ≠ .components) :
+    inStepTextStep env t items s =
+      ((), { s with block := some (BlockBuf.step (items ++ [Item.text t.text])) }) :=
+  inStepTextStep_inline_off env t items s h hd
+
+/-- a coarse observation of an event list (enough to tell the readings apart) -/
+def C02.evTag : Ev Rat → Nat
+  | .ingredient i =>
+    100 + (if i.val.alias.isSome then 1 else 0) + (if i.val.modifiers.val.bits ≠ 0 then 16 else 0) +
+      (match i.val.quantity with
+       | some q => (if q.val.unit.isSome then 2 else 0) +
+           (match q.val.value.value.val with
+            | .range _ _ => 4
+            | .text _ => 8
+            | .number _ => 0)
+       | none => 0)
+  | .timer _ => 200
+  | .cookware _ => 300
+  | .text _ => 1
+  | .start _ => 2
+  | .stop _ => 3
+  | .error _ => 4
+  | .warning _ => 5
+  | .metadata _ _ => 6
+  | .frontMatter _ => 8
+  | _ => 7
+
+def C02.obs (e : Nat) (oldStyle : Bool) (b : List Tok) : List Nat :=
+  (runBlock (α := Rat) toyCharSpec ⟨e⟩ oldStyle b #[] none).1.toList.map C02.evTag
+
+/-! each clause of `UsesNone` is needed: a block that violates just that clause, and two
+    extension sets under which it is read differently (ground computations; the two with numbers
+    are evaluated by the kernel directly) -/
+
+-- `@?a`: a modifier character after the marker
+example : let b := C02.toks [(.at, ['@']), (.question, ['?']), (.word, ['a'])]
+    UsesNone toyCharSpec b = false ∧ C02.obs 0 true b ≠ C02.obs Gen.EXT_COMPONENT_MODIFIERS true b := by
+  decide
+
+-- `@a|b{}`: a `|` in the name
+example : let b := C02.toks [(.at, ['@']), (.word, ['a']), (.or, ['|']), (.word, ['b']), (.openBrace, ['{']),
+      (.closeBrace, ['}'])]
+    UsesNone toyCharSpec b = false ∧ C02.obs 0 true b ≠ C02.obs Gen.EXT_COMPONENT_ALIAS true b := by
+  decide
+
+-- `@a{1-2}`: a `-` in the quantity
+example : let b := C02.toks [(.at, ['@']), (.word, ['a']), (.openBrace, ['{']), (.int, ['1']), (.minus, ['-']),
+      (.int, ['2']), (.closeBrace, ['}'])]
+    UsesNone toyCharSpec b = false ∧ C02.obs 0 true b ≠ C02.obs Gen.EXT_RANGE_VALUES true b := by
+  decide +kernel
+
+-- `@a{1 kg}`: a number, whitespace, a word and no `%`
+example : let b := C02.toks [(.at, ['@']), (.word, ['a']), (.openBrace, ['{']), (.int, ['1']), (.ws, [' ']),
+      (.word, ['k','g']), (.closeBrace, ['}'])]
+    UsesNone toyCharSpec b = false ∧ C02.obs 0 true b ≠ C02.obs Gen.EXT_ADVANCED_UNITS true b := by
+  decide +kernel
+
+-- `~a` and `~a{}`: a timer without a quantity
+example : let b := C02.toks [(.tilde, ['~']), (.word, ['a'])]
+    UsesNone toyCharSpec b = false ∧ C02.obs 0 true b ≠ C02.obs Gen.EXT_TIMER_REQUIRES_TIME true b := by
+  decide
+
+example : let b := C02.toks [(.tilde, ['~']), (.word, ['a']), (.openBrace, ['{']), (.closeBrace, ['}'])]
+    UsesNone toyCharSpec b = false ∧ C02.obs 0 true b ≠ C02.obs Gen.EXT_TIMER_REQUIRES_TIME true b := by
+  decide
+
+-- `>> [mode]: x` (after a front matter, i.e. `oldStyle = false`): a bracketed metadata key
+example : let b := C02.toks [(.metaStart, ['>','>']), (.ws, [' ']), (.punct, ['[']), (.word, ['m','o','d','e']),
+      (.punct, [']']), (.colon, [':']), (.ws, [' ']), (.word, ['x'])]
+    UsesNone toyCharSpec b = false ∧ C02.obs 0 false b ≠ C02.obs Gen.EXT_MODES false b := by
+  decide
 
 end Cook
